@@ -304,6 +304,8 @@ func (g *lockGen) plan() *BlockPlan {
 			unlocks = append(unlocks, Ev{"id": id, "v": int(cnd[0]) + 1, "t": int(cnd[1]) + 1, "amt": amt})
 		}
 	}
+	var exoReq []*goattypes.UnlockRequest
+	var exoAbs []Ev
 	if g.exodus {
 		for vi, v := range st.Val {
 			if !v.Exists {
@@ -312,9 +314,9 @@ func (g *lockGen) plan() *BlockPlan {
 			for ti := range st.Tokens {
 				if v.Locking[ti] > 0 {
 					id := g.id()
-					lk.Unlocks = append(lk.Unlocks, &goattypes.UnlockRequest{Id: uint64(id), Validator: c.KR.Vals[vi].EthAddr(), Recipient: rndAddr(r),
+					exoReq = append(exoReq, &goattypes.UnlockRequest{Id: uint64(id), Validator: c.KR.Vals[vi].EthAddr(), Recipient: rndAddr(r),
 						Token: project.TokenAddrs[ti], Amount: big.NewInt(v.Locking[ti])})
-					unlocks = append(unlocks, Ev{"id": id, "v": vi + 1, "t": ti + 1, "amt": v.Locking[ti]})
+					exoAbs = append(exoAbs, Ev{"id": id, "v": vi + 1, "t": ti + 1, "amt": v.Locking[ti]})
 				}
 			}
 		}
@@ -342,6 +344,12 @@ func (g *lockGen) plan() *BlockPlan {
 			lk.Claims = append(lk.Claims, &goattypes.ClaimRequest{Id: uint64(id), Validator: addr, Recipient: rndAddr(r)})
 			claims = append(claims, Ev{"id": id, "v": vid})
 		}
+	}
+	if g.exodus { // nothing else in this block: the batch must not fail for another reason
+		lk.UpdateWeights, lk.UpdateThresholds, lk.Creates, lk.Locks, lk.Claims, lk.Grants = nil, nil, nil, nil, nil, nil
+		weights, thresholds, creates, locks, claims = nil, nil, nil, nil, nil
+		abs["grants"] = []int64{}
+		lk.Unlocks, unlocks = exoReq, exoAbs
 	}
 	set := func(k string, v []Ev) {
 		if v != nil {
